@@ -623,9 +623,16 @@ pub fn dispatch(name: &str, args: &[&str]) -> Option<String> {
             if let Some((i, t)) = hb {
                 ws = ws.with_heartbeat(Heartbeat::new(Duration::from_millis(i), Duration::from_millis(t)));
             }
-            ws.on_connect(on_connect);
-            ws.on_disconnect(on_disconnect);
-            ws.on_message(on_message);
+            // flags c / m / x: that handler is NOT installed
+            if !flags.contains('c') {
+                ws.on_connect(on_connect);
+            }
+            if !flags.contains('x') {
+                ws.on_disconnect(on_disconnect);
+            }
+            if !flags.contains('m') {
+                ws.on_message(on_message);
+            }
             *shared.sender.lock().unwrap() = Some(ws.sender());
             let mut http_done = None;
             if internal {
